@@ -23,9 +23,9 @@ func init() {
 			Explanation: "Decides: C11.atomic (in every dbSet* function all Set calls go to ONE badger transaction value with a single Commit that follows them, defer Discard present; dbSetEvents writes the event record, the topological key and the participant key on that one transaction), " +
 				"C11.first (InsertEvent's success returns and the append to UndeterminedEvents are reached only after Store.SetEvent returned nil; BadgerStore.SetEvent returns the DB write's error when not in maintenance mode, and writes the DB only after the cache accepted the event), " +
 				"C11.replay (Bootstrap sets maintenance mode before the first insert and restores it by defer; feeds events of dbTopologicalEvents(index*batch, batch) in slice order to InsertEventAndRunConsensus — the live insert path; dbTopologicalEvents reads keys built by the writer's key function, ascending), " +
-				"C11.head (every transition to Babbling is preceded in the same function by core.setHeadAndSeq or a successful core.fastForward), C11.sibling (thorough: badger_store_mobile.go equals badger_store.go modulo the badger import path). " +
+				"C11.topo (the replay source has no holes: a topological index is consumed only by an event that was stored — Bootstrap reads consecutive keys and stops at the first missing one), C11.head (every transition to Babbling is preceded in the same function by core.setHeadAndSeq or a successful core.fastForward), C11.sibling (thorough: badger_store_mobile.go equals badger_store.go modulo the badger import path). " +
 				"NOT decided: equality of re-delivered blocks (needs determinism behaviourally), durability with SyncWrites=false under power loss, arbitrary kill instants inside badger."},
-		Rules:    []ruleFunc{c11atomic, c11first, c11replay, c11head},
+		Rules:    []ruleFunc{c11atomic, c11first, c11replay, c11head, func(p *Prog, r *Report) { topoRule(p, r, "C11.topo") }},
 		Thorough: []ruleFunc{siblingRule("C11.sibling")},
 	})
 }
